@@ -174,6 +174,11 @@ def run(st, tier, seed):
                     conv = Convert("o.pil", False); eq, wc, stt = conv.get_constraints()
                     nts = pipeline.assignment_for(eq, wc, stt, rng)
                     conv.process_results(nts); conv.output("o.mfe", findmfe=False)
+            except BaseException as e:
+                if isinstance(e, KeyboardInterrupt): raise
+                res.violations.append({"what": "loading a valid assignment back into the specification / writing the .mfe fails: %r" % (e,), "input": inp,
+                                       "sig": "C06:cli-mfe-write", "cmd": "pepper-design-spurious o.pil"})
+                continue
             finally:
                 os.chdir(cwd)
             r3 = cli("peppercompiler.finish", ["o", "--seqs", "o.seqs", "--strands", "o.strands"], d)
